@@ -83,17 +83,43 @@ Proof.
   apply orb_false_iff. split; apply Z.eqb_neq; lia.
 Qed.
 
+Lemma digits_value_ge : forall s acc, forallb is_digit s = true -> 0 <= acc -> acc <= digits_value s acc.
+Proof.
+  induction s as [|c r IH]; intros acc H Ha; cbn [digits_value]; [lia|].
+  cbn [forallb] in H. apply andb_true_iff in H. destruct H as [Hc Hr].
+  unfold is_digit in Hc. apply andb_true_iff in Hc. destruct Hc as [H1 H2].
+  apply Z.leb_le in H1. apply Z.leb_le in H2.
+  specialize (IH (acc * 10 + (c - 48)) Hr ltac:(lia)). lia.
+Qed.
+
+(* ParseUint's digit loop agrees with the plain decimal value as long as that fits uint64 *)
+Lemma parse_uint_digits : forall s acc, forallb is_digit s = true -> 0 <= acc ->
+  digits_value s acc <= max_uint64 -> parse_uint s acc = Some (digits_value s acc).
+Proof.
+  induction s as [|c r IH]; intros acc H Ha Hv; cbn [parse_uint digits_value]; [reflexivity|].
+  cbn [forallb] in H. apply andb_true_iff in H. destruct H as [Hc Hr]. rewrite Hc.
+  assert (Hc' := Hc). unfold is_digit in Hc'. apply andb_true_iff in Hc'. destruct Hc' as [H1 H2].
+  apply Z.leb_le in H1. apply Z.leb_le in H2.
+  cbn [digits_value] in Hv.
+  pose proof (digits_value_ge r (acc * 10 + (c - 48)) Hr ltac:(lia)) as Hge.
+  unfold max_uint64 in *.
+  destruct (acc >=? 1844674407370955162) eqn:E1; [apply Z.geb_le in E1; lia|].
+  destruct (acc * 10 + (c - 48) >? 18446744073709551615) eqn:E2; [apply Z.gtb_lt in E2; lia|].
+  apply IH; auto. lia.
+Qed.
+
 Lemma atoi_dec_repr ds n : dec_repr ds n -> 0 <= n <= max_int64 -> atoi ds = n.
 Proof.
-  intros [Hne [Hall Hval]] Hn. unfold atoi, atoi_syntax_ok.
+  intros [Hne [Hall Hval]] Hn. unfold atoi.
   destruct ds as [|c r]; [congruence|].
   assert (Hc : is_digit c = true) by (cbn in Hall; apply andb_true_iff in Hall; tauto).
-  rewrite (is_digit_not_sign c Hc). rewrite Hall.
   pose proof (is_digit_not_sign c Hc) as Hs. apply orb_false_iff in Hs. destruct Hs as [H43 H45].
-  rewrite H43, H45. rewrite Hval.
-  unfold max_int64, min_int64 in *.
-  destruct (0 * 10 ^ zlen (c :: r) + n >? 9223372036854775807) eqn:E1; [lia|].
-  destruct (0 * 10 ^ zlen (c :: r) + n <? -9223372036854775808) eqn:E2; lia.
+  rewrite H43, H45. cbn [orb].
+  rewrite all_digits_forallb in Hall.
+  assert (Hv : digits_value (c :: r) 0 = n) by (rewrite Hval; lia).
+  unfold max_int64 in Hn.
+  rewrite parse_uint_digits; [| exact Hall | lia | unfold max_uint64; lia].
+  rewrite Hv. destruct (n >=? 9223372036854775808) eqn:E; [apply Z.geb_le in E; lia | reflexivity].
 Qed.
 
 Lemma atoi_itoa n : 0 <= n <= max_int64 -> atoi (itoa n) = n.
